@@ -406,7 +406,10 @@ theorem nle_replace (f : Forest) (a b : Nat) : NLe f (f.replace a b).1 := by
           rw [hi] at h2
           simp only
           cases r with
-          | ok => exact (h1.trans h2).trans (nle_removeConsolidate _ _ _)
+          | ok =>
+            cases f.nextSibling a with
+            | none => exact h1.trans h2
+            | some n => exact (h1.trans h2).trans (nle_removeConsolidate _ _ _)
           | err e => exact h1.trans h2
           | panic => exact h1.trans h2
 
